@@ -245,11 +245,10 @@ def check_C09(tier):
     genbin = os.path.join(bins, "varlink-rust-generator")
     thorough = tier == "thorough"
     # (1) programs: every type shape in every position, every name of the pools in every name position, member sequences
-    cases = idl_asts(res, "names", 1, 3) + idl_asts(res, "types", 3 if thorough else 2, 3)
+    names = idl_asts(res, "names", 1, 3)
+    types = idl_asts(res, "types", 3 if thorough else 2, 3)
     shapes = idl_asts(res, "shapes", 1, 3)
-    cases += shapes if thorough else shapes[::20]
-    if not thorough:
-        cases = cases[:251] + cases[251::2]
+    cases = names + types + (shapes if thorough else shapes[::20])
     items = []
     for k, c in enumerate(cases):
         c["_name"] = "m%d" % k
